@@ -128,7 +128,7 @@ func AorCase(ids []ID) *Case {
 // GennaroCase: Gennaro DKG on k256 with Fiat–Shamir.
 func GennaroCase(name string, ac accessstructures.Monotone, ids []ID) *Case {
 	return &Case{Name: "gennaro/" + name, IDs: ids, Run: func(x mcrt.Chooser, net *schednet.Net, seed int64) *Exec {
-		ctxs := Contexts(ids, seed, "gennaro")
+		ctxs := Contexts(ids, KeySeed(seed), "gennaro")
 		res, info := schednet.RunAll(x, net, ids, func(ctx context.Context, id ID, rt *network.Router) (*K256Shard, error) {
 			r, err := gennaro.NewRunner(ctxs[id], k256.NewCurve(), ac, fiatshamir.Name, det.New(seed, fmt.Sprintf("gennaro/%d", id)))
 			if err != nil {
@@ -143,7 +143,7 @@ func GennaroCase(name string, ac accessstructures.Monotone, ids []ID) *Case {
 // CanettiCase: Canetti DKG on k256.
 func CanettiCase(name string, ac accessstructures.Monotone, ids []ID) *Case {
 	return &Case{Name: "canetti/" + name, IDs: ids, Run: func(x mcrt.Chooser, net *schednet.Net, seed int64) *Exec {
-		ctxs := Contexts(ids, seed, "canetti")
+		ctxs := Contexts(ids, KeySeed(seed), "canetti")
 		res, info := schednet.RunAll(x, net, ids, func(ctx context.Context, id ID, rt *network.Router) (*K256Shard, error) {
 			r, err := canetti.NewRunner(ctxs[id], ac, k256.NewCurve(), det.New(seed, fmt.Sprintf("canetti/%d", id)))
 			if err != nil {
@@ -171,13 +171,13 @@ func RedistributeCase(name string, oldAC accessstructures.Monotone, prev []ID, n
 	}
 	ids = Sorted(ids)
 	return &Case{Name: "redistribute/" + name, IDs: ids, Run: func(x mcrt.Chooser, net *schednet.Net, seed int64) *Exec {
-		old := DealK256(oldAC, seed, "redistribute-old")
+		old := DealK256(oldAC, KeySeed(seed), "redistribute-old")
 		var anyOld *K256Shard
 		for _, sh := range old {
 			anyOld = sh
 		}
 		oldPK := anyOld.PublicKeyValue()
-		ctxs := Contexts(ids, seed, "redistribute")
+		ctxs := Contexts(ids, KeySeed(seed), "redistribute")
 		prevSet := Set(prev...)
 		res, info := schednet.RunAll(x, net, ids, func(ctx context.Context, id ID, rt *network.Router) (*K256Shard, error) {
 			var opts []redistribute.Option
@@ -213,7 +213,7 @@ func RedistributeCase(name string, oldAC accessstructures.Monotone, prev []ID, n
 // Lindell22Case: BIP-340 threshold signing by quorum on trusted-dealer shards of ac, then aggregation by the harness.
 func Lindell22Case(name string, ac accessstructures.Monotone, quorum []ID, message []byte) *Case {
 	return &Case{Name: "lindell22/" + name, IDs: quorum, Run: func(x mcrt.Chooser, net *schednet.Net, seed int64) *Exec {
-		base := DealK256(ac, seed, "lindell22")
+		base := DealK256(ac, KeySeed(seed), "lindell22")
 		shards := map[ID]*lindell22.Shard[*k256.Point, *k256.Scalar]{}
 		for id, b := range base {
 			sh, err := keygen.NewShard(b)
@@ -222,11 +222,11 @@ func Lindell22Case(name string, ac accessstructures.Monotone, quorum []ID, messa
 			}
 			shards[id] = sh
 		}
-		scheme, err := bip340.NewScheme(det.New(seed, "bip340-scheme"))
+		scheme, err := bip340.NewScheme(det.New(KeySeed(seed), "bip340-scheme"))
 		if err != nil {
 			panic(err)
 		}
-		ctxs := Contexts(quorum, seed, "lindell22-sign")
+		ctxs := Contexts(quorum, KeySeed(seed), "lindell22-sign")
 		type psig = *lindell22.PartialSignature[*k256.Point, *k256.Scalar]
 		res, info := schednet.RunAll(x, net, quorum, func(ctx context.Context, id ID, rt *network.Router) (psig, error) {
 			r, err := signing.NewRunner(ctxs[id], shards[id], fiatshamir.Name, scheme.Variant(), message, det.New(seed, fmt.Sprintf("lindell22/%d", id)))
